@@ -467,7 +467,11 @@ def r7(F, rep):
             nm, "is refreshed at the end of every step" if ok else why), ok,
             detail="with a stale value the repeated step is taken for a discrete jump (or the reverse) and the coordinate is re-initialised instead of reverted", func=e.q)
         for k2 in sorted(partner.get(nm, ())):
-            eres = X.const_locals(e)
+            eres = dict(X.const_locals(e))
+            # a const reference local is another name of what it was bound to
+            for d in e.walk():
+                if d["k"] == "VarDecl" and d.get("st") == "local" and d.get("ref") and e.typestr(d.get("t")).startswith("const ") and len(X.kids(d)) == 1:
+                    eres[d["d"]] = X.kids(d)[0]
             srcs = []
             for w in ws:
                 if w["k"] == "BinaryOperator" and w.get("op") == "=":
